@@ -49,7 +49,7 @@ CHECKS = {
         level='exploration',
         technique='Hypothesis-generated completion/failure/cancellation plans over gate-driven tasks on a harness-owned asyncio loop; invariant + outcome oracle; tracking semaphore attributes the known over-release',
         text='~19k plans per quick run over flat, nested (Copier-shaped) and online gathers with the caller holding a slot; checks the running-at-once bound (also on a second gather on the same semaphore), result order, exception contract, cancel-and-wait and task leaks at the instant control returns.',
-        note='Single-threaded asyncio; trusts vlib/aiosched.py. One known finding (semaphore over-release on error exit) is compensated per case and counted; two defects found were fixed.'),
+        note='Single-threaded asyncio; trusts vlib/aiosched.py. One known finding (semaphore over-release on error exit) is compensated per case and counted; two defects found were fixed. A task raising CancelledError itself is judged in return_exceptions mode; an outside coroutine submits follow-up work just before a task finishes (races the pool exit); an unstarted pool task at return counts as work left behind.'),
     'C21': dict(
         level='exploration',
         technique='Hypothesis sequences from a labelled exception catalogue (with raise-from chains) under a virtual clock and harness-chosen jitter; exhaustive grid for delay_ms_for_try',
@@ -74,7 +74,7 @@ CHECKS = {
         level='exploration',
         technique='Hypothesis (type, value) generation; round-trip oracle plus a layout differential: an independent decoder parameterised by the EType descriptor parsed from EType.fromPythonTypeEncoding in the Scala source',
         text='~18k values per quick run: _from_encoding(_to_encoding(v)) == v with all bytes consumed, and the reference decoder driven by the engine-declared descriptor must consume exactly the same bytes and yield v.',
-        note='The engine\'s generated decoders are not executed; per-EType layout semantics are a trusted transcription; descriptor parser fails closed (exit 2) if the Scala function changes shape.'),
+        note='The engine\'s generated decoders are not executed; per-EType layout semantics are a trusted transcription; descriptor parser fails closed (exit 2) if the Scala function changes shape. Plus 2k sequences sharing one type-object tree: encodes that raise part-way (missing field, wrong type, out of range) before well-formed values; every successful encode must equal a fresh type object\'s bytes.'),
     'C34': dict(
         level='exploration',
         technique='exhaustive grids + Hypothesis boundary search; differential between Python byte-level call packing and compiled slices of Call.scala / Genotype.scala, plus an exact integer reference',
@@ -84,7 +84,7 @@ CHECKS = {
         level='exploration',
         technique='the engine\'s Scala statistical functions run as compiled source slices against exact-integer / fixed-point / mpmath references over exhaustive small grids and Hypothesis-generated tables',
         text='10^4 dense 2x2 tables, generated tables up to 3000 per cell, HWE triples exhaustive to 25^3 plus generated to 5000: p-values, statistics, odds ratios and CI limits against their definitions with stated tolerances; p in [0,1]; NaN exactly where degenerate.',
-        note='pchisqtail is substituted (commons-math3 for jdistlib); Scala 3 compile of 2.12 source; references in checks/c37.py. One known finding (uniroot absolute tolerance) is listed.'),
+        note='pchisqtail is substituted (commons-math3 for jdistlib); Scala 3 compile of 2.12 source; references in checks/c37.py. One known finding (uniroot absolute tolerance) is listed. The slicer pulls in sibling members the sliced functions newly refer to.'),
     'C15': dict(
         level='exploration',
         technique='exhaustive subset/shape grids + Hypothesis spec generation; round-trip oracle through json for every batch format version',
@@ -94,12 +94,12 @@ CHECKS = {
         level='exploration',
         technique='exhaustive small grid + Hypothesis size-controlled spec lists against flatten / order / limit predicates on the real Batch._create_bunches',
         text='~32k inputs per quick run (0-40 job groups, 0-200 jobs, sizes at limit-1, count and byte limits down to 1): concatenated bunches equal groups-then-jobs byte-for-byte, no empty bunch, every bunch within both limits.',
-        note='Caller preconditions (every spec below the byte limit, positive limits) hold by construction; orjson is a json-backed shim.'),
+        note='Caller preconditions (every spec below the byte limit, positive limits) hold by construction; orjson is a json-backed shim. The Batch is built through the real client (real __init__); five sequence shards run 2-7 calls on one Batch (recurring id()s, specs edited in place, failed submit then retry through the real submit against a recording fake server).'),
     'C22': dict(
         level='exploration',
         technique='Hypothesis-generated source trees and transfer sets run through the real Copier on temp dirs with part/buffer sizes forced to 1..64 bytes; reference model of the documented destination rules',
         text='~4-5k copies per quick run incl. multi-part files with short last parts, directory merges, all treat_dest_as modes and error classes; the model reproduces all 324 rows of the repository\'s own copy_test_specs table, which are also run through the real copier.',
-        note='Trusts the reference model (validated 324/324 against the repo spec table) and host FS read-back. Racy/conflicting transfers get weak checks only. Two defects found were fixed.'),
+        note='Trusts the reference model (validated 324/324 against the repo spec table) and host FS read-back. Racy/conflicting transfers get weak checks only. Two defects found were fixed. Generated transient faults (0-3 per case, 9 error kinds) at every file-system call of the copy (listing call / iteration, status, size, open, read, create, write, close, makedirs, multi-part pieces) with zero retry delay; three calls outside every retry wrapper fail loudly and are accepted (see ASSUMPTIONS).'),
     'C23': dict(
         level='exploration',
         technique='Hypothesis + exhaustive grid of ranged reads over the real Local/Google/S3/Azure FS classes with provider fakes honouring documented range semantics',
@@ -114,7 +114,7 @@ CHECKS = {
         level='exploration',
         technique='exhaustive component grid (scheme x slashes x userinfo x host x port x tail, two deploy configs) + Hypothesis grammar-aware mutation (+ atheris in thorough); one-directional differential against an independent WHATWG-style URL resolver',
         text='1.15M candidate next URLs per quick run: whenever validate_next_page_url accepts, the independently resolved scheme must be http(s)/relative and the host one of the four service hosts.',
-        note='Trusts the resolver in checks/c29.py (IDNA approximated by NFKC + lower-casing) and a fixed deploy config. Found and fixed: non-http schemes were accepted.'),
+        note='Trusts the resolver in checks/c29.py (IDNA approximated by NFKC + lower-casing) and a fixed deploy config. Found and fixed: non-http schemes were accepted. Plus 2.4k request sequences through the real login / signup / oauth2callback / creating / logout handlers over a stand-in for aiohttp_session that saves the session also when the handler raises HTTPException: every redirect Location after a login flow must be allowed, whatever earlier requests of that session were answered.'),
     'C17': dict(
         level='exploration',
         technique='Hypothesis-generated pipelines (programs as data) built through the public Batch DSL and executed by the real LocalBackend (bash subprocesses); execution log checked against a topological-order / skip-propagation model',
@@ -134,27 +134,27 @@ CHECKS = {
         level='exploration',
         technique='Hypothesis-generated service histories (JSON op lists) executed by the real front-end/driver code and the repository SQL on minimysql; after every op aggregates are recomputed from primary rows (reference recomputation, not a second implementation)',
         text='~1k histories per quick run (<= 43 ops; n_tokens 1/2/5 with harness-drawn shards): all eight user_inst_coll_resources columns and the job-group cancellable counters must equal the recomputation from job rows after every op.',
-        note='Serializable at transaction granularity on an interpreter, not MySQL itself; INSERT..SELECT-from-target evaluated per row. Three known findings are excluded by construction (guards) and re-demonstrated from corpus/C01.'),
+        note='Serializable at transaction granularity on an interpreter, not MySQL itself; INSERT..SELECT-from-target evaluated per row. Three known findings are excluded by construction (guards) and re-demonstrated from corpus/C01. Since seeded round 4 every history profile also draws `par` ops: two real calls in flight with a generated schedule at SQL statement boundaries (see DESIGN A.1); a pair that itself reaches a known finding\'s trigger ends the history unjudged.'),
     'C04': dict(
         level='exploration',
         technique='Hypothesis histories weighted to duplicated/late/stale worker messages, one case in four weaving a whole job life (pool or job-private) with a later update of its children committed at a generated point; lifecycle relation checked at every transaction boundary, tallies recomputed after every op',
         text='~1k histories per quick run: every job state change observed between two transactions must be in the allowed relation (terminal absorbing), and per-group completed/succeeded/failed/cancelled tallies must equal the count of terminal jobs in the subtree.',
-        note='Same engine limits as C01; worker reports are only generated from active instances (endpoint precondition).'),
+        note='Same engine limits as C01; worker reports are only generated from active instances (endpoint precondition). Also judged: a complete / started / unschedule message naming a non-current attempt never changes the job row; deactivating an instance only moves jobs whose current attempt sits on it (scheduling-race production leaves stale attempts on other instances).'),
     'C05': dict(
         level='exploration',
         technique='Hypothesis histories with DAGs spread over several updates, all completion outcomes; dependency invariants recomputed from job_parents after every op',
         text='~1k histories per quick run: non-Pending => all parents terminal; no committed Pending job with all parents terminal; n_pending_parents exact; cancelled flag iff a parent did not succeed; cancelled non-always-run jobs never enter Creating/Running.',
-        note='Same engine limits as C01.'),
+        note='Same engine limits as C01. Chain productions commit later updates while parents are Creating / Running / Failed / Cancelled (diamonds with one failed and one live parent); legacy absolute same-update parents are generated.'),
     'C10': dict(
         level='exploration',
         technique='Hypothesis histories on pool and job-private instances (create/activate/deactivate/delete, schedule, creating, started, complete, unschedule, duplicates, stale attempts); free cores recomputed from attempts after every op and compared with table and in-memory values',
         text='~1k histories per quick run: for live instances free_cores_mcpu == cores - sum(un-ended attempt cores); inactive => all free; the driver Instance object agrees with the table.',
-        note='Caller preconditions respected (worker endpoints only from active instances, unschedule only on active instances, mark_job_creating only for job-private pending instances). Same engine limits as C01.'),
+        note='Caller preconditions respected (worker endpoints only from active instances, unschedule only on active instances, mark_job_creating only for job-private pending instances). Same engine limits as C01. One known finding (cores of an attempt that ends on a still-pending instance are not credited), matched only for the exact uncredited amount.'),
     'C41': dict(
         level='exploration',
         technique='Hypothesis histories weighted to late / never committed updates with parents in earlier updates, real scheduler and canceller loop bodies in between; direct invariants on uncommitted jobs + committed-only recomputation of counters, n_jobs and completeness',
         text='~1k histories per quick run (5 unguarded shards re-find the two known root causes, 11 guarded shards search behind them).',
-        note='Same engine limits as C01. Two known findings (scheduler and mark_job_complete ignore batch_updates.committed).'),
+        note='Same engine limits as C01. Two known findings (scheduler and mark_job_complete ignore batch_updates.committed). The first update is left open more often and cancelled before its commit (corpus/C41).'),
     'C11': dict(
         level='exploration',
         technique='exhaustive small grid + Hypothesis demand multisets written as sharded rows into minimysql, the real PoolScheduler._compute_fair_share (incl. its GROUP BY/HAVING query) against an exact Fraction water-filling solver',
@@ -179,7 +179,7 @@ CHECKS = {
         level='fault_enumeration',
         technique='exhaustive single-fault enumeration (31 body shapes x attempt 1..3 x every position x 14 error kinds) + Hypothesis multi-fault plans injected through the fake driver into the real gear.database; dict reference model',
         text='Retried iff the injected error is transient (1040, 1205, 1213, 2003, 2013); other errors propagate after one attempt; table equals "exactly one committed attempt or none"; every connection released once.',
-        note='A fault at COMMIT is modelled as commit-did-not-happen; streaming select helpers have no retry wrapper (documented). One defect (1205 as OperationalError) was fixed.'),
+        note='A fault at COMMIT is modelled as commit-did-not-happen; streaming select helpers have no retry wrapper (documented). One defect (1205 as OperationalError) was fixed. The stand-in models statement-level rollback for 1205 and whole-transaction rollback for 1213/2013/COMMIT errors; connections are inspected at pool.release and an append-only log table makes a write applied twice visible; both pool behaviours (close vs reuse of an in-transaction connection) are cases.'),
     'C35': dict(
         level='translation_validation',
         technique='generated shared-node IR DAGs (expression API and direct ir constructors) rendered with CSERenderer and PlainRenderer; binder-identity scope checking, let-erasure comparison and differential evaluation in a reference interpreter',
@@ -189,22 +189,22 @@ CHECKS = {
         level='exploration',
         technique='typed-program generation over the expression/Table/MatrixTable APIs without execution; an independent bottom-up type inferencer over the emitted IR text with rules written from the Scala InferType/TypeCheck/TableIR/MatrixIR',
         text='~3.6k programs per quick run (190k IR nodes): front-end dtype == inferred IR type for every node, Ref and table/matrix component; literals typecheck.',
-        note='Typing rules and 32 registry signatures are hand-transcribed; node kinds outside the rule set are counted (0). One known finding (impute_type numpy widening).'),
+        note='Typing rules and 32 registry signatures are hand-transcribed; node kinds outside the rule set are counted (0). One known finding (impute_type numpy widening). Mixed numeric expression containers and unifiers, widening folds / scans (accumulator binder vs Ref type), joins on non-leading keys; two defects found were fixed (ArrayExpression.contains, tbool and numpy.bool_).'),
     'C38': dict(
         level='exploration',
         technique='exhaustive + Hypothesis interval sizes on the real partitioning; op-list merge plans through the real new_combiner/run/step/save/load with provenance-tracking engine fakes and crash/resume injection',
         text='MT/chrM sizes 1-5000 exhaustive for both genomes, whole-genome sizes to 3e8; hundreds of merge plans each with ~6 resume points: one final dataset built from exactly the inputs, each once; saved plan is a fixed point.',
-        note='Part (b) says nothing about the engine merge itself. Three defects found were fixed.'),
+        note='Part (b) says nothing about the engine merge itself. Three defects found were fixed. Only uuid4 is harness-owned; the rest of the uuid module is real.'),
     'C02': dict(
         level='exploration',
         technique='Hypothesis histories weighted to attempts, heartbeats, late/duplicate completions, UTC day changes and compaction; all four billing aggregates recomputed from attempts x attempt_resources after every op',
         text='~1k histories per quick run: usage per job, per job group with descendants, per billing project+user and summed over days == sum quantity x max(rollup-start,0); per-day rows only change on the current UTC day; compaction changes no total.',
-        note='Same engine limits as C01; RAND() token shards drawn by the harness.'),
+        note='Same engine limits as C01; RAND() token shards drawn by the harness. Compaction runs are paired (`par`) with the writers of the table they rewrite under generated schedules; corpus/C02 holds the minimal lost-update schedule.'),
     'C03': dict(
         level='fault_enumeration',
         technique='Hypothesis-generated report sequences (schedule, started, heartbeat, complete, unschedule, deactivate, duplicates, out-of-order timestamps) through the real procedures and the attempts_before_update trigger; before/after row relation per op',
         text='~1k histories per quick run: billed >= 0, bounded by end-start once ended, never decreases except on an earlier end / activation timeout, start only moves earlier, (end, reason) only change to an earlier end.',
-        note='Fault sequences are generated, not exhaustively enumerated; observed per op (each op issues at most one UPDATE per attempt row). activation_timeout only on never-activated instances (caller precondition).'),
+        note='Fault sequences are generated, not exhaustively enumerated; observed per op (each op issues at most one UPDATE per attempt row). activation_timeout only on never-activated instances (caller precondition). The exceptions of the statement are judged by the report (op result), not the row: after an activation-timeout report every attempt on that instance must be billed 0; the canceller has a crash variant (driver stops between mark_job_complete and the instance deletion).'),
     'C06': dict(
         level='exploration',
         technique='Hypothesis histories with nested groups and multi-update submission; after every op every batch and visible job group is read through the real _get_batch/_get_job_group and compared with a recomputation over committed jobs',
@@ -214,7 +214,7 @@ CHECKS = {
         level='exploration',
         technique='Hypothesis histories weighted to cancels in every order with creation, scheduling and completion inside / beside / above the cancelled subtree; before/after snapshot relations + "request answered normally" clause',
         text='~1k histories per quick run (5 unguarded shards re-find the error-1242 finding, 11 guarded shards search behind it).',
-        note='Same engine limits as C01; error 1242 semantics of minimysql has its own self-test. One known finding (is_job_cancelled returns one row per cancelled ancestor).'),
+        note='Same engine limits as C01; error 1242 semantics of minimysql has its own self-test. One known finding (is_job_cancelled returns one row per cancelled ancestor). Guards sit on the exact trigger (descendant first, then its ancestor); nested-cancel chain production with multi-request updates beneath generated groups; Creating->Running of a cancelled job is judged; a refusal by the foreign key (never-created group in the bunch) is not judged by status.'),
     'C08': dict(
         level='exploration',
         technique='schema-directed Hypothesis generation of create-fast / update-fast / jobs-create submissions with adversarial job and parent ids through the real aiohttp application on batchsim; structural validity + fair drive to completion; committed-state comparison on refusal',
@@ -224,7 +224,7 @@ CHECKS = {
         level='exploration',
         technique='Hypothesis interleavings of the real scheduler loop, four canceller bodies, simulated workers (duplicate/late/stale reports), preemption and user cancels, followed by a fair closing phase to a fixpoint; safety invariants per op, bounded liveness at the fixpoint',
         text='~640 histories per quick run: running jobs always have exactly one current attempt, stale reports never change job state; at the fair fixpoint every committed job is terminal, batches complete, always-run jobs ran.',
-        note='Liveness only as fixpoint detection under the stated fairness model at transaction granularity; round bound 60 => inconclusive. Known findings are excluded by construction.'),
+        note='Liveness only as fixpoint detection under the stated fairness model at transaction granularity; round bound 60 => inconclusive. Known findings are excluded by construction. Batches whose completion the harness itself withholds (known-finding guard) or that depend on a never-committed update are not judged for liveness; the stale-report clause covers unschedule.'),
     'C09': dict(
         level='fault_enumeration',
         technique='Hypothesis pipelines for the real aioclient (jobs, parents, job groups, 1-3 submits, small bunch limits) through the real retrying Session into the real front-end app; per-request fault plan (lost response -> client retry, duplicate delivery); invariants + metamorphic comparison with the fault-free run',
